@@ -27,7 +27,7 @@ def attribute(v):
       props.add("C20")
     elif c in ("LiveS", "LiveT"):
       props.add("C21")
-    elif c in ("Q", "Did"):
+    elif c in ("Q", "Did", "Circuit"):
       props.add("C14")
     elif c == "DQ":
       props.add("C15")
